@@ -81,8 +81,8 @@ def jobs(tier, seed):
                 structs += list(mc.datasets(n, 3, 2))
             for n, k in samp:
                 structs += mc.sample_datasets(n, 3, 2, k, rnd)
-            for ci in range(0, len(structs), 60):
-                js.append({"id": f"ident-{name}-{bk}-{ci // 60}", "kind": "ident", "moment": name, "bound": bk, "structs": structs[ci:ci + 60]})
+            for ci in range(0, len(structs), 20):  # small chunks: the 16 workers stay evenly loaded and no job outlives the budget
+                js.append({"id": f"ident-{name}-{bk}-{ci // 20}", "kind": "ident", "moment": name, "bound": bk, "structs": structs[ci:ci + 20]})
         for where in ("oracle", "grid"):
             structs = list(mc.datasets(2, 2, 0))
             if tier == "quick":
@@ -92,8 +92,8 @@ def jobs(tier, seed):
             structs += mc.sample_datasets(3, 3, 2, 3 if tier == "quick" else 30, rnd, need_ctrl=True)
             if tier != "quick":
                 structs += mc.sample_datasets(4, 3, 2, 30, rnd)
-            for ci in range(0, len(structs), 12):
-                js.append({"id": f"{where}-{name}-{ci // 12}", "kind": where, "moment": name, "structs": structs[ci:ci + 12]})
+            for ci in range(0, len(structs), 3):
+                js.append({"id": f"{where}-{name}-{ci // 3}", "kind": where, "moment": name, "structs": structs[ci:ci + 3]})
     # the generic UtilityParity with user-supplied (symbolic) utilities and events: the public base class of the five parity moments
     for n in (2, 3):
         for g in core.rgs(n, 2):
